@@ -187,6 +187,7 @@ func ioFaults(c *fw.Ctx, dir string, docs []string) {
 				// part or a chapter that could not be read is skipped): observed, but no
 				// property promises that I/O errors are reported, so it is not asserted.
 				c.Count("io_ops_value_differs_without_error", 1)
+				c.Count("io_ops_value_differs_without_error"+filepath.Ext(docs[j.doc]), 1)
 			} else {
 				c.Count("io_ops_same_value", 1)
 			}
